@@ -65,7 +65,36 @@ svc!(SvcB, 2, [M1]);
 svc!(SvcC, 3, [M1, M2]);
 svc!(SvcD, 4, [M2]);
 
-const SVC_NAMES: [&str; 4] = ["A", "B", "C", "D"];
+/// Two instantiations of one generic service: their names differ only inside the `<...>`.
+pub struct Gen<T>(std::marker::PhantomData<T>);
+pub struct Alpha;
+pub struct Beta;
+
+pub trait GenTag: Send + Sync + 'static {
+    const TAG: u32;
+}
+impl GenTag for Alpha {
+    const TAG: u32 = 5;
+}
+impl GenTag for Beta {
+    const TAG: u32 = 6;
+}
+
+impl<T: GenTag> RpcService for Gen<T> {
+    fn register_handlers(r: &mut ServiceRegistry<Self>) {
+        r.add_handler::<M1>();
+    }
+}
+
+#[async_trait]
+impl<T: GenTag> Handler<M1> for Gen<T> {
+    type Reply = u32;
+    async fn on_message(&self, m: Request<M1>) -> Result<u32, Status> {
+        Ok(T::TAG * 1_000_000 + m.0.value())
+    }
+}
+
+const SVC_NAMES: [&str; 6] = ["A", "B", "C", "D", "Gen<Alpha>", "Gen<Beta>"];
 
 fn c13_apply(server: &Server, action: u8) {
     let (svc, add) = ((action / 2) as usize, action % 2 == 0);
@@ -78,6 +107,10 @@ fn c13_apply(server: &Server, action: u8) {
         (1, false) => server.remove_service(SvcB::service_name()),
         (2, false) => server.remove_service(SvcC::service_name()),
         (3, false) => server.remove_service(SvcD::service_name()),
+        (4, true) => server.add_service(Gen::<Alpha>(std::marker::PhantomData)),
+        (5, true) => server.add_service(Gen::<Beta>(std::marker::PhantomData)),
+        (4, false) => server.remove_service(Gen::<Alpha>::service_name()),
+        (5, false) => server.remove_service(Gen::<Beta>::service_name()),
         _ => unreachable!(),
     }
 }
@@ -102,6 +135,10 @@ async fn c13_probe(channel: &Channel, nonce: u32) -> Vec<(&'static str, Result<u
     call!(SvcC, M1, "C/M1");
     call!(SvcC, M2, "C/M2");
     call!(SvcD, M2, "D/M2");
+    type GenAlpha = Gen<Alpha>;
+    type GenBeta = Gen<Beta>;
+    call!(GenAlpha, M1, "Gen<Alpha>/M1");
+    call!(GenBeta, M1, "Gen<Beta>/M1");
     out
 }
 
@@ -113,7 +150,7 @@ fn c13_expect(registered: &BTreeSet<usize>, nonce: u32) -> Vec<(&'static str, Re
             Err("ServiceUnavailable".to_string())
         }
     };
-    vec![("A/M1", e(0, 1)), ("B/M1", e(1, 2)), ("C/M1", e(2, 3)), ("C/M2", e(2, 3)), ("D/M2", e(3, 4))]
+    vec![("A/M1", e(0, 1)), ("B/M1", e(1, 2)), ("C/M1", e(2, 3)), ("C/M2", e(2, 3)), ("D/M2", e(3, 4)), ("Gen<Alpha>/M1", e(4, 5)), ("Gen<Beta>/M1", e(5, 6))]
 }
 
 async fn c13_history(server: &Server, channel: &Channel, hist: &[u8], out: &mut CaseOut) {
@@ -159,7 +196,7 @@ pub fn c13(args: &Args) {
     let mut report = Report::new(
         args,
         "E3-registry",
-        "services A,B (message M1), C (M1,M2), D (M2) on one real Server: every history of <= 5 actions out of {add X, remove X} (8 actions incl. double add, double remove, remove-unknown; 37 448 histories) executed on the in-memory transport (same ServerState / handler dispatch code as TCP), after EVERY step all 5 (service,message) pairs are called through real RpcClients: Ok with that service's tag iff the service is in the registered-names model, else ServiceUnavailable. A seeded sample of histories is repeated on a real loopback TCP server. Non-trivial = history contains a removal; distinct = distinct histories.",
+        "services A,B (message M1), C (M1,M2), D (M2) and two instantiations Gen<Alpha>, Gen<Beta> of one generic service (M1; names differing only inside <...>) on one real Server: every history of <= 5 actions out of {add X, remove X} over A-D (8 actions incl. double add, double remove, remove-unknown; 37 448 histories) and over {A, Gen<Alpha>, Gen<Beta>} (6 actions; 9 330 histories) executed on the in-memory transport (same ServerState / handler dispatch code as TCP), after EVERY step all 7 (service,message) pairs are called through real RpcClients: Ok with that service's tag iff the service is in the registered-names model, else ServiceUnavailable. A seeded sample of histories is repeated on a real loopback TCP server. Non-trivial = history contains a removal; distinct = distinct histories.",
     );
     if let Some(path) = &args.replay {
         let r = read_replay(path);
@@ -193,6 +230,23 @@ pub fn c13(args: &Args) {
         }
     }
     rec(max_len, &mut Vec::new(), &mut hists);
+    // second universe: A and the two instantiations of the generic service (6 actions)
+    {
+        fn rec2(max: usize, cur: &mut Vec<u8>, out: &mut Vec<Vec<u8>>) {
+            if !cur.is_empty() {
+                out.push(cur.clone());
+            }
+            if cur.len() == max {
+                return;
+            }
+            for a in [0u8, 1, 8, 9, 10, 11] {
+                cur.push(a);
+                rec2(max, cur, out);
+                cur.pop();
+            }
+        }
+        rec2(max_len, &mut Vec::new(), &mut hists);
+    }
     // only maximal histories need running when every step is probed: a history
     // is a prefix of its extensions. Keep all of length max_len.
     let full: Vec<Vec<u8>> = hists.iter().filter(|h| h.len() == max_len).cloned().collect();
@@ -228,7 +282,7 @@ pub fn c13(args: &Args) {
         let mut rng = rng_for(seed, 0xC13, 0);
         for k in 0..n_tcp {
             let len = rng.gen_range(2..=7);
-            let hist: Vec<u8> = (0..len).map(|_| rng.gen_range(0..8)).collect();
+            let hist: Vec<u8> = (0..len).map(|_| rng.gen_range(0..12)).collect();
             let addr = free_tcp_addr();
             let server = match Server::listen(addr).await {
                 Ok(s) => s,
